@@ -161,6 +161,9 @@ void World::build(int slot, const NodeCfg &cfg, std::vector<ObjSpec> objs, const
     S.nemcy = emcyTbl.size();
     if (S.nemcy) { S.emcy = (CO_EMCY_TBL *)zalloc(S, S.nemcy * sizeof(CO_EMCY_TBL)); for (size_t i = 0; i < S.nemcy; i++) { S.emcy[i].Reg = emcyTbl[i].first; S.emcy[i].Code = emcyTbl[i].second; } }
     S.node = (CO_NODE *)zalloc(S, sizeof(CO_NODE));
+#ifdef COSIM_VALGRIND
+    if (getenv("COSIM_NODE_UNDEFINED")) { VALGRIND_MAKE_MEM_UNDEFINED(S.node, sizeof(CO_NODE)); VALGRIND_MAKE_MEM_UNDEFINED(S.tmrmem, cfg.tmrNum * sizeof(CO_TMR_MEM)); VALGRIND_MAKE_MEM_UNDEFINED(S.sdobuf, (size_t)CO_SSDO_N * CO_SDO_BUF_BYTE); }   // experiment: does the stack rely on zeroed node memory?
+#endif
     S.drv.Can = &canDrv; S.drv.Timer = &tmrDrv; S.drv.Nvm = &nvmDrv;
     S.spec.NodeId = cfg.nodeId; S.spec.Baudrate = cfg.baud; S.spec.Dict = S.dict; S.spec.DictLen = (uint16_t)(S.ndict + cfg.dictExtra);
     S.spec.EmcyCode = S.emcy; S.spec.TmrMem = S.tmrmem; S.spec.TmrNum = cfg.tmrNum; S.spec.TmrFreq = cfg.freq; S.spec.Drv = &S.drv; S.spec.SdoBuf = S.sdobuf;
